@@ -38,8 +38,12 @@ def _ret_wrap(t, e):
     return '*r = ls_b64(%s);' % e
 
 
-def gen_driver(batch, main='pure', extra=''):
-    out = ['#include "m.h"', '#include "lockstep.h"', extra]
+def gen_driver(batch, main=None, extra=''):
+    main = main or getattr(batch, 'main', 'pure')
+    pre_defs = ''
+    if getattr(batch, 'impl_mem', None):
+        pre_defs = '#define LS_IMPL_MEM (%s)' % batch.impl_mem
+    out = ['#include "m.h"', pre_defs, '#include "lockstep.h"', extra]
     # imported host functions (C symbols <mod>__<name>)
     for idx, imp in enumerate(batch.imports):
         mod, nm, params, result = imp[:4]
@@ -114,11 +118,21 @@ def gen_driver(batch, main='pure', extra=''):
         out.append('static wr_global* gen_rglob(void* c, const char* m, const char* n) { (void)c; %s return NULL; }' % ' '.join(rglob))
         out.append('static wr_env gen_env;')
         pre = '%s gen_env.resolve_memory = gen_rmem; gen_env.resolve_table = gen_rtab; gen_env.resolve_global = gen_rglob; ls_user_resolve = gen_resolve; ls_user_env = &gen_env;' % ' '.join(init)
+    if main == 'bfs':
+        rows = []
+        for ci, args, flag in batch.ops:
+            a = list(args) + [0] * (4 - len(args))
+            rows.append('{%d, {%s}, %d}' % (ci, ','.join('0x%xull' % v for v in a), flag))
+        out.append('static const ls_op ops[] = {%s};' % ',\n'.join(rows))
+        out.append('int main(int argc, char** argv) { %s return ls_main_bfs(argc, argv, funcs, %d, ops, %d, %d, %dull); }' % (pre, len(batch.cases), len(batch.ops), batch.bfs_depth, batch.bfs_budget))
+    if main == 'pure' and getattr(batch, 'compare_mem', False):
+        pre += ' ls_compare_mem_flag = 1;'
     if main == 'pure':
         out.append('int main(int argc, char** argv) { %s return ls_main_pure(argc, argv, funcs, %d, sets, alphas); }' % (pre, len(batch.cases)))
     return '\n'.join(out) + '\n'
 
 
+_BFS = re.compile(r'BFSDONE states=(\d+) transitions=(\d+) depth_completed=(\d+) capped=(\d+) ops=(\d+) op_outcomes=(\d+) ops_single_outcome=(\d+)')
 _DONE = re.compile(r'DONE evals=(\d+) nontrivial=(\d+) funcs=(\d+) skipped=(\d+) weak=(\d+) traps=(\d+) mismatches=(\d+)')
 
 
@@ -129,6 +143,12 @@ def parse_output(text):
         if m:
             res.update(done=True, evals=int(m.group(1)), nontrivial=int(m.group(2)), funcs=int(m.group(3)), skipped=int(m.group(4)),
                        weak=int(m.group(5)), traps=int(m.group(6)), mismatches=int(m.group(7)))
+        elif _BFS.match(line):
+            g = _BFS.match(line)
+            res['bfs'] = {'states': int(g.group(1)), 'transitions': int(g.group(2)), 'depth_completed': int(g.group(3)), 'capped': int(g.group(4)),
+                          'ops': int(g.group(5)), 'op_outcomes': int(g.group(6)), 'ops_single_outcome': int(g.group(7))}
+        elif line.startswith('HISTORY'):
+            res.setdefault('histories', []).append([int(x) for x in line.split()[1:]])
         elif line.startswith('MISMATCH'):
             res['mismatch_lines'].append(line)
         elif line.startswith('CRASH'):
